@@ -8,8 +8,9 @@ Oracle (independent, from the property statement + a pinned vendor table):
   * ref_stream(tree, family): every row once, in tree order, at its nesting depth; after every patch block the vendor's
     block-exit command (table EXIT below);
   * SESSION: per hardware the session wrapper (enter configuration mode before; commit, leave, save after);
-  * deploy rule of a command = the unique chain of nested rules matching its block path row by row (own reader and matcher
-    of the rulebook language in bounded.gen_rb), else the defaults (30 s, no dialog)."""
+  * deploy rule of a command = the rule reached by walking its block path row by row through the nested rules (a row that
+    matches no rule of the current level is skipped, the level stays; own reader and matcher of the rulebook language in
+    bounded.gen_rb), else the defaults (30 s, no dialog)."""
 from unittest import mock
 
 from bounded.common import setup_annet, h
@@ -116,20 +117,31 @@ def session(model, do_commit, do_finalize, context=None):
 
 # ---------------------------------------------------------------------------------------------------------------------
 # deploy rules: own matcher
+def _params_of(rule):
+    qs = []
+    for q, a in rule.dialogs:
+        is_re = len(q) >= 2 and q.startswith("/") and q.endswith("/")
+        qs.append((q[1:-1] if is_re else q, a, is_re))
+    return float(rule.params.get("timeout", 30)), qs
+
+
 def ref_deploy_params(rules, path):
-    """(timeout, [(question, answer, is_regexp)]) of the unique rule chain matching `path`, or None when no chain matches.
+    """(timeout, [(question, answer, is_regexp)]) of the rule matching the block path `path`, or None when none matches.
+    Reading of the statement (the one the shipped deploy rulebooks rely on, e.g. top-level `undo peer *` for rows under
+    `bgp`): the path is walked row by row; a row matched by a rule of the current level descends into that rule's children;
+    a row that matches no rule of the current level is skipped and the rule level stays; the command carries the parameters
+    of the rule of the current level that matches its own row (the last of the path).
     Raises ValueError when sibling rules overlap on a row of the path (outside the scope of the property)."""
     level = rules
-    rule = None
-    for row in path:
+    for n, row in enumerate(path):
         hit = [r for r in level if g.tokens_match(r.tokens, row)]
         if len(hit) > 1:
             raise ValueError("sibling deploy rules overlap on %r" % row)
-        if not hit:
-            return None
-        rule = hit[0]
-        level = rule.children
-    return _params_of(rule)
+        if n == len(path) - 1:
+            return _params_of(hit[0]) if hit else None
+        if hit:
+            level = hit[0].children
+    return None
 
 
 def rand_deploy_text(rnd):
@@ -353,35 +365,11 @@ def check_tree(model, nested, deploy_text, flags, whole_list_no_commit=False):
             got = (float(c.timeout) if c.timeout is not None else None, [(q.question, q.answer, bool(q.is_regexp)) for q in (c.questions or [])])
             if got != exp:
                 key = "bounded:C09:timeout-or-dialog!=matching-rule"
-                if len(p) > 1 and ref_deploy_params(rules, p) is None and _fallthrough_params(rules, p) == got:
-                    key = "bounded:C09:deploy-rule-of-outer-level-applied-under-unmatched-parent"
                 fails.append(dict(key=key, text="timeout/dialog of command %r differ from the rule chain matching its block path" % (list(p),),
                                   expected=dict(path=list(p), timeout=exp[0], questions=exp[1]),
                                   actual=dict(path=list(p), timeout=got[0], questions=got[1])))
                 break
     return fails
-
-
-def _params_of(rule):
-    qs = []
-    for q, a in rule.dialogs:
-        is_re = len(q) >= 2 and q.startswith("/") and q.endswith("/")
-        qs.append((q[1:-1] if is_re else q, a, is_re))
-    return float(rule.params.get("timeout", 30)), qs
-
-
-def _fallthrough_params(rules, path):
-    """classification only (not the oracle): the parameters a matcher would give that SKIPS the rows of the path which
-    match no rule of the current level instead of giving up"""
-    level = rules
-    for n, row in enumerate(path):
-        last = n == len(path) - 1
-        hit = [r for r in level if g.tokens_match(r.tokens, row)]
-        if hit and last:
-            return _params_of(hit[0])
-        if hit:
-            level = hit[0].children
-    return None
 
 
 # ---------------------------------------------------------------------------------------------------------------------
